@@ -33,12 +33,18 @@ def sidOfNat (n : Nat) : Bytes :=
 base64url alphabet, so nothing the case generator sends as a forged cookie is in the range of `enc` -/
 def encStd (to : Int) (d : Bytes) : Bytes := 126 :: (Spec.showDec to ++ 46 :: d)
 
+/-- the deadline is a 64-bit `time_t`: plain decimal, no `int` range check -/
+def readTime (num : Bytes) : Option Int :=
+  match num with
+  | 45 :: ds => if ds.isEmpty then none else (Spec.digitsVal ds 0).map fun n => -(n : Int)
+  | ds => if ds.isEmpty then none else (Spec.digitsVal ds 0).map fun n => (n : Int)
+
 def decStd (s : Bytes) : Option (Int × Bytes) :=
   match s with
   | 126 :: r =>
     let num := r.takeWhile (· != 46)
-    match r.dropWhile (· != 46), Spec.readDec num with
-    | _ :: d, some t => if num.any Spec.isSpace || num.head? == some 43 then none else some (t, d)
+    match r.dropWhile (· != 46), readTime num with
+    | _ :: d, some t => some (t, d)
     | _, _ => none
   | _ => none
 
